@@ -31,6 +31,7 @@ class BMSToSM(ConvertBase):
 
         sms.title = unidecode(bms.title.decode("sjis"))
         sms.artist = unidecode(bms.artist.decode("sjis"))
-        sms.offset = 0.0
+        # Beat 0 of the file is the first bpm
+        sms.offset = sm.bpms.first_offset() or 0.0
 
         return sms
